@@ -1144,6 +1144,11 @@ class Eval:
                 if isinstance(s.value.func, ast.Attribute) and s.value.func.attr == "encode" and self.is_str(s.value.func.value):
                     ascii_ok = star(SL.chars_where(lambda c: ord(c) < 128))
                     return {"N": reach & ascii_ok, "E": reach - ascii_ok}     # UnicodeError is a ValueError
+                # float(s) / int(s) as a statement: a probe that raises ValueError for text the constructor does not read
+                if isinstance(s.value.func, ast.Name) and s.value.func.id in ("float", "int") and len(s.value.args) == 1 \
+                        and not s.value.keywords and self.is_str(s.value.args[0]):
+                    m_ = SL.FLOAT if s.value.func.id == "float" else SL.INT10
+                    return {"N": reach & m_, "E": reach - m_}
                 # a mutating call on a concrete local built from the tables (excluded.update(self.grammar.whitespace),
                 # names.append(x)): carried out on the concrete value -- nothing of the string under test is involved
                 f_ = s.value.func
